@@ -1,5 +1,6 @@
 import RdpModel.Nla.Cssp
 import RdpModel.Spec.CsspProof
+import RdpModel.Spec.Strict
 import Driver.Nla
 namespace Rdp.Driver
 open Rdp Rdp.Crypto Rdp.Nla
@@ -19,14 +20,25 @@ def csspOp (toks : List String) : String :=
     | some pw, some ud, some cp16, some cp8, some spk, some r2, some ra =>
       let key := ntowfv2 pw ud
       let i : NtlmIn := ⟨key, d16, u16, d8, u8, neg, cc, ek⟩
-      let e : CsspEnv := ⟨i, .ok chal, .ok spk, r2, ra == "1", d16, u16, cp16, d8, u8, cp8⟩
+      let r1 : Outcome Bytes := match obsBytes (kv toks "r1obs") with | some o => o | none => .ok chal
+      let e : CsspEnv := ⟨i, r1, .ok spk, r2, ra == "1", d16, u16, cp16, d8, u8, cp8⟩
       let (res, ws) := csspConnect e
       let st := match res with | .ok _ => "ok" | .err _ => "E" | .panic _ => "P"
       let all := ws.foldl (· ++ ·) []
       -- oracle: MS-CSSP server proof decided from the reply alone
-      let oracle := match r2 with
-        | .ok pka => if Spec.Cssp.serverProof ek spk pka then "ok *" else "E *"
-        | _ => "E *"
+      -- ... and, when the raw reply is on the line, only from a DER-encoded TSRequest
+      let derErr : Option String := match g "r2" with
+        | some raw => (match Spec.Strict.tsRequest raw with | .ok _ => none | .error e => some e)
+        | none => none
+      let proof := match r2 with | .ok pka => Spec.Cssp.serverProof ek spk pka | _ => false
+      let r1ok := match r1 with | .ok _ => true | _ => false
+      let oracle :=
+        if !r1ok then "E *"
+        else if proof && derErr.isNone then "ok *"
+        -- the recorded finding: a valid proof inside a TSRequest whose only flaw is a long-form
+        -- length with a leading zero octet (the DER reader in use tolerates it)
+        else if proof && derErr == some "DER length: leading zero" then "X:der-leading-zero:E *"
+        else "E *"
       st ++ " " ++ toHex all ++ "\t" ++ oracle
     | _, _, _, _, _, _, _ => "bad-case"
   | _, _, _, _, _, _, _, _ => "bad-case"
